@@ -842,3 +842,22 @@ Proof.
     [first [exact I|split; [apply Forall_forall; intros l [<-|[]]; apply bytes_okb_ok; reflexivity|vm_compute; discriminate]]|]).
   destruct Hin.
 Qed.
+
+Lemma no_panic_l r views : handleICMP4 views <> None /\ handleICMP6 r views <> None.
+Proof. split; [apply handleICMP4_no_panic|apply handleICMP6_no_panic]. Qed.
+
+(* the hypotheses of the IPv6 checksum clause hold for multi-view messages too: echo data in views
+   of 2 + 3 bytes behind a header that shares its view with the first two data bytes *)
+Example echo6_example :
+  let a := [254; 128; 0; 0; 0; 0; 0; 0; 0; 0; 0; 0; 0; 0; 0; 1] in
+  let b := [32; 1; 13; 184; 0; 0; 0; 0; 0; 0; 0; 0; 0; 0; 0; 9] in
+  let views := [[128; 0; 0; 0; 0; 1; 0; 2; 1; 2]; [3; 4; 5]] in
+  views_ok views /\ is_echo_request6 views = true /\ nonfinal_even (vv_trimFront views 8) /\
+  exists p, handleICMP6 (mkRoute a b) views = Some (A6Reply p) /\
+            p_msg p = [129; 0; 73; 107; 0; 1; 0; 2; 1; 2; 3; 4; 5] /\
+            rfc1071_sum (pseudo6 a b 13 ++ p_msg p) 0 = 65535.
+Proof.
+  cbv zeta. split; [split; [apply Forall_forall; intros l [<-|[<-|[]]]; apply bytes_okb_ok; reflexivity|vm_compute; discriminate]|].
+  split; [reflexivity|]. split; [cbn; split; [reflexivity|exact I]|].
+  eexists. split; [vm_compute; reflexivity|]. split; vm_compute; reflexivity.
+Qed.
